@@ -205,9 +205,12 @@ theorem RepIters.no_stop_of_longer {α} {unit : Nat → Inp → M → R α} {max
   · exact hne hmax
   · rw [hok] at hf; cases hf
 
-/-- Every run of the loop is out of fuel or is: a successful prefix, a stop, and the MIN test. -/
+/-- Every run of the loop is out of fuel or is: a successful prefix, a stop, and the MIN test.
+`acc.length = idx` is the invariant `vec.len() = i` of the Rust loop: under it the test after the
+`RepeatMinMax` loop (`vec.len() < MIN`) and the test at a failing unit (`i < MIN`) are one test on
+the number of successful iterations. -/
 theorem repLoop_cases {α} (unit : Nat → Inp → M → R α) (min : Nat) (max : Option Nat) :
-    ∀ budget idx i m acc,
+    ∀ budget idx i m acc, acc.length = idx →
       repLoop unit min max budget idx i m acc = .oof ∨
       ∃ vs i1 m1 m', RepIters unit max idx i m i1 m1 vs ∧ RepStop unit max (idx + vs.length) i1 m1 m' ∧
         vs.length < budget ∧
@@ -217,12 +220,12 @@ theorem repLoop_cases {α} (unit : Nat → Inp → M → R α) (min : Nat) (max 
   induction budget with
   | zero => intros; left; rfl
   | succ b ih =>
-    intro idx i m acc
+    intro idx i m acc hlen
     unfold repLoop
     by_cases hmax : max = some idx
     · right
       refine ⟨[], i, m, m, .nil _ _ _, Or.inl ⟨by simpa using hmax, rfl⟩, by simp, ?_⟩
-      simp [hmax]
+      simp [hmax, repDone_some, hlen]
     · simp only [hmax, if_false]
       cases hu : unit idx i m with
       | oof => left; rfl
@@ -230,10 +233,15 @@ theorem repLoop_cases {α} (unit : Nat → Inp → M → R α) (min : Nat) (max 
         right
         refine ⟨[], i, m, { mf with stk := m.stk }, .nil _ _ _,
           Or.inr ⟨by simpa using hmax, mf, by simpa using hu, rfl⟩, by simp, ?_⟩
-        simp [restoreOnNone]
+        simp only [restoreOnNone, List.length_nil, Nat.add_zero, List.append_nil]
+        by_cases hmin : idx < min
+        · simp only [hmin, if_true]
+        · simp only [hmin, if_false]
+          exact repDone_of_le _ _ _ _ _ (by omega)
       | ok i1 m1 a =>
         simp only [restoreOnNone]
-        rcases ih (idx+1) i1 m1 (a :: acc) with h | ⟨vs, i2, m2, m', hI, hS, hb, heq⟩
+        rcases ih (idx+1) i1 m1 (a :: acc) (by simp only [List.length_cons, hlen])
+          with h | ⟨vs, i2, m2, m', hI, hS, hb, heq⟩
         · left; exact h
         · right
           have e : idx + (a :: vs).length = idx + 1 + vs.length := by
@@ -246,21 +254,27 @@ theorem repLoop_cases {α} (unit : Nat → Inp → M → R α) (min : Nat) (max 
 /-- Converse of `repLoop_cases`. -/
 theorem repLoop_of_iters {α} {unit : Nat → Inp → M → R α} {min : Nat} {max : Option Nat}
     {idx i m i1 m1 vs} (hI : RepIters unit max idx i m i1 m1 vs) :
-    ∀ {m'}, RepStop unit max (idx + vs.length) i1 m1 m' → ∀ budget acc, vs.length < budget →
+    ∀ {m'}, RepStop unit max (idx + vs.length) i1 m1 m' → ∀ budget acc, acc.length = idx →
+      vs.length < budget →
       repLoop unit min max budget idx i m acc =
         if idx + vs.length < min then .fail m' else .ok i1 m' (acc.reverse ++ vs) := by
   induction hI with
   | nil idx i m =>
-    intro m' hS budget acc hb
+    intro m' hS budget acc hlen hb
     cases budget with
     | zero => simp at hb
     | succ b =>
       unfold repLoop
       rcases hS with ⟨hmax, rfl⟩ | ⟨hne, mf, hu, rfl⟩
-      · simp at hmax; simp [hmax]
-      · simp at hne hu; simp [hne, hu, restoreOnNone]
+      · simp at hmax; simp [hmax, repDone_some, hlen]
+      · simp at hne hu
+        simp only [hne, if_false, hu, restoreOnNone, List.length_nil, Nat.add_zero, List.append_nil]
+        by_cases hmin : idx < min
+        · simp only [hmin, if_true]
+        · simp only [hmin, if_false]
+          exact repDone_of_le _ _ _ _ _ (by omega)
   | @cons idx i m i1 m1 a i' m' vs hmax hu _ ih =>
-    intro mm hS budget acc hb
+    intro mm hS budget acc hlen hb
     cases budget with
     | zero => simp at hb
     | succ b =>
@@ -269,17 +283,19 @@ theorem repLoop_of_iters {α} {unit : Nat → Inp → M → R α} {min : Nat} {m
         simp only [List.length_cons]; omega
       rw [e] at hS
       simp only [hmax, if_false, hu, restoreOnNone]
-      rw [ih hS b (a :: acc) (by simp only [List.length_cons] at hb; omega), e]
+      rw [ih hS b (a :: acc) (by simp only [List.length_cons, hlen])
+        (by simp only [List.length_cons] at hb; omega), e]
       simp
 
 theorem repLoop_ok_iff {α} (unit : Nat → Inp → M → R α) (min : Nat) (max : Option Nat)
-    (budget idx : Nat) (i : Inp) (m : M) (acc : List α) (i' : Inp) (m' : M) (out : List α) :
+    (budget idx : Nat) (i : Inp) (m : M) (acc : List α) (hlen : acc.length = idx)
+    (i' : Inp) (m' : M) (out : List α) :
     repLoop unit min max budget idx i m acc = .ok i' m' out ↔
       ∃ vs m1, out = acc.reverse ++ vs ∧ RepIters unit max idx i m i' m1 vs ∧
         RepStop unit max (idx + vs.length) i' m1 m' ∧ min ≤ idx + vs.length ∧ vs.length < budget := by
   constructor
   · intro h
-    rcases repLoop_cases unit min max budget idx i m acc with h0 | ⟨vs, i1, m1, mm, hI, hS, hb, heq⟩
+    rcases repLoop_cases unit min max budget idx i m acc hlen with h0 | ⟨vs, i1, m1, mm, hI, hS, hb, heq⟩
     · rw [h0] at h; cases h
     · rw [heq] at h
       split at h
@@ -288,16 +304,16 @@ theorem repLoop_ok_iff {α} (unit : Nat → Inp → M → R α) (min : Nat) (max
         injection h with h1 h2 h3; subst h1; subst h2; subst h3
         exact ⟨vs, m1, rfl, hI, hS, by omega, hb⟩
   · rintro ⟨vs, m1, rfl, hI, hS, hmin, hb⟩
-    rw [repLoop_of_iters hI hS budget acc hb, if_neg (by omega)]
+    rw [repLoop_of_iters hI hS budget acc hlen hb, if_neg (by omega)]
 
 theorem repLoop_fail_iff {α} (unit : Nat → Inp → M → R α) (min : Nat) (max : Option Nat)
-    (budget idx : Nat) (i : Inp) (m : M) (acc : List α) (m' : M) :
+    (budget idx : Nat) (i : Inp) (m : M) (acc : List α) (hlen : acc.length = idx) (m' : M) :
     repLoop unit min max budget idx i m acc = .fail m' ↔
       ∃ vs i1 m1, RepIters unit max idx i m i1 m1 vs ∧
         RepStop unit max (idx + vs.length) i1 m1 m' ∧ idx + vs.length < min ∧ vs.length < budget := by
   constructor
   · intro h
-    rcases repLoop_cases unit min max budget idx i m acc with h0 | ⟨vs, i1, m1, mm, hI, hS, hb, heq⟩
+    rcases repLoop_cases unit min max budget idx i m acc hlen with h0 | ⟨vs, i1, m1, mm, hI, hS, hb, heq⟩
     · rw [h0] at h; cases h
     · rw [heq] at h
       split at h
@@ -306,15 +322,23 @@ theorem repLoop_fail_iff {α} (unit : Nat → Inp → M → R α) (min : Nat) (m
         exact ⟨vs, i1, m1, hI, hS, hmin, hb⟩
       · cases h
   · rintro ⟨vs, i1, m1, hI, hS, hmin, hb⟩
-    rw [repLoop_of_iters hI hS budget acc hb, if_pos hmin]
+    rw [repLoop_of_iters hI hS budget acc hlen hb, if_pos hmin]
 
 /-- With `MIN = 0` the loop never fails. -/
 theorem repLoop_min0_ne_fail {α} (unit : Nat → Inp → M → R α) (max : Option Nat)
     (budget idx : Nat) (i : Inp) (m : M) (acc : List α) (m' : M) :
     repLoop unit 0 max budget idx i m acc ≠ .fail m' := by
-  intro h
-  obtain ⟨vs, i1, m1, _, _, hmin, _⟩ := (repLoop_fail_iff unit 0 max budget idx i m acc m').mp h
-  omega
+  induction budget generalizing idx i m acc with
+  | zero => intro h; cases h
+  | succ b ih =>
+    unfold repLoop
+    simp only [Nat.not_lt_zero, if_false, repDone_min0]
+    split
+    · intro h; cases h
+    · split
+      · intro h; cases h
+      · intro h; cases h
+      · exact ih _ _ _ _
 
 /-! ### `repUnitP` -/
 
@@ -596,7 +620,7 @@ theorem repLoop_ok_iff0 {α} (unit : Nat → Inp → M → R α) (min : Nat) (ma
     repLoop unit min max budget 0 i m [] = .ok i' m' out ↔
       ∃ m1, RepIters unit max 0 i m i' m1 out ∧
         RepStop unit max out.length i' m1 m' ∧ min ≤ out.length ∧ out.length < budget := by
-  rw [repLoop_ok_iff]
+  rw [repLoop_ok_iff unit min max budget 0 i m [] rfl]
   constructor
   · rintro ⟨vs, m1, rfl, hI, hS, hmin, hb⟩
     simp only [Nat.zero_add] at *
@@ -605,11 +629,11 @@ theorem repLoop_ok_iff0 {α} (unit : Nat → Inp → M → R α) (min : Nat) (ma
     exact ⟨out, m1, by simp, hI, by simpa using hS, by simpa using hmin, hb⟩
 
 theorem repLoop_fail_iff0 {α} (unit : Nat → Inp → M → R α) (min : Nat) (max : Option Nat)
-    (budget : Nat) (i : Inp) (m : M) (acc : List α) (m' : M) :
-    repLoop unit min max budget 0 i m acc = .fail m' ↔
+    (budget : Nat) (i : Inp) (m : M) (m' : M) :
+    repLoop unit min max budget 0 i m [] = .fail m' ↔
       ∃ vs i1 m1, RepIters unit max 0 i m i1 m1 vs ∧
         RepStop unit max vs.length i1 m1 m' ∧ vs.length < min ∧ vs.length < budget := by
-  rw [repLoop_fail_iff]
+  rw [repLoop_fail_iff unit min max budget 0 i m [] rfl]
   constructor
   · rintro ⟨vs, i1, m1, hI, hS, hmin, hb⟩
     simp only [Nat.zero_add] at *
@@ -673,7 +697,7 @@ theorem parse_rep_fail_iff (g : NodeGrammar) (uni : Uni) (fuel : Nat) (inh : Boo
         RepStop (parseRepUnit g uni fuel inh sk x) max vs.length i1 m1 m' ∧
         vs.length < min ∧ vs.length < fuel := by
   simp only [parse]
-  have key := repLoop_fail_iff0 (parseRepUnit g uni fuel inh sk x) min max fuel i m [] m'
+  have key := repLoop_fail_iff0 (parseRepUnit g uni fuel inh sk x) min max fuel i m m'
   unfold parseRepUnit at key ⊢
   rw [← key]
   cases repLoop (repUnitP (parse g uni fuel false g.skipped) (parse g uni fuel inh x)
